@@ -40,6 +40,12 @@ KERNELS = [
     # ---- csearch: the convergence decision ------------------------------------------------------------------
     K("src_c03_cs_converged", _C, r"else if \(const auto converged = (.*?); converged\)",
       [], [("econv", "bool"), ("sconv", "bool")], "c03", _P),
+    # the two flags of the decision ARE the bundle's own tests at the solver's epsilon (a locally recomputed tolerance breaks
+    # the anchor: the certificate theorem is about econverged/sconverged with tol = epsilon * sqrt(dims))
+    K("src_c03_cs_econv", _C, r"const auto\s+econv\s*=\s*(.*?);", [(r"bundle\.econverged\(epsilon\)", "bundle_econverged_epsilon")],
+      [("bundle_econverged_epsilon", "bool")], "c03", _P),
+    K("src_c03_cs_sconv", _C, r"const auto\s+sconv\s*=\s*(.*?);", [(r"bundle\.sconverged\(epsilon\)", "bundle_sconverged_epsilon")],
+      [("bundle_sconverged_epsilon", "bool")], "c03", _P),
     # ---- RQB / FPBA: what is handed to solver_t::done -----------------------------------------------------
     K("src_c03_rqb_iter_ok", _R, r"const auto iter_ok\s*=\s*(.*?);", _CS, [("status", "Z")], "c03", _P),
     K("src_c03_rqb_converged", _R, r"const auto converged\s*=\s*(.*?);", _CS, [("status", "Z")], "c03", _P),
